@@ -153,6 +153,9 @@ func (r *Runner) options(c Config, dir string) kv.Options {
 }
 
 func (r *Runner) wrote(key, val []byte) {
+	if len(key) == 0 {
+		return // rejected with ErrKeyIsEmpty: nothing was written
+	}
 	m := r.Written[string(key)]
 	if m == nil {
 		m = map[string]bool{}
